@@ -129,6 +129,8 @@ pub struct Device {
     pub app_inputs: BTreeMap<u8, Vec<u8>>,
     /// Datagram counter for fault positions.
     pub serviced_counter: u64,
+    /// (command, register) of the first datagram an injected fault made this device ignore.
+    pub first_refused: Option<(u8, u16)>,
     /// Wire-level tampering: replace the working counter increment of every serviced datagram.
     pub wkc_tamper: Option<i32>,
 }
@@ -224,6 +226,7 @@ impl Device {
             sm_complete_reads: [0; 16],
             app_inputs: BTreeMap::new(),
             serviced_counter: 0,
+            first_refused: None,
             wkc_tamper: None,
         }
     }
@@ -263,15 +266,21 @@ impl Device {
     }
 
     /// Should this device service the next datagram addressed to it? Advances the fault position.
-    pub fn will_service(&mut self) -> bool {
+    pub fn will_service(&mut self, cmd: u8, ado: u16) -> bool {
         let n = self.serviced_counter;
         self.serviced_counter += 1;
         if let Some(from) = self.faults.dropout_from {
             if n >= from {
+                if self.first_refused.is_none() {
+                    self.first_refused = Some((cmd, ado));
+                }
                 return false;
             }
         }
         if self.faults.skip_one == Some(n) {
+            if self.first_refused.is_none() {
+                self.first_refused = Some((cmd, ado));
+            }
             return false;
         }
         self.stats.datagrams_serviced += 1;
